@@ -208,9 +208,9 @@ theorem not_listener_of_tcb (k : Kernel) (o : List Fd) (h : Live k o) (s : Sock)
     have := (h.lown s hs (by rw [hl]; rfl)).2.1
     rw [htc] at this; exact absurd this (by simp)
 
-theorem live_handleOnConn (k : Kernel) (o : List Fd) (fd : Fd) (l r : Ep) (sy a f rs : Bool)
+theorem live_handleOnConn (k : Kernel) (o : List Fd) (fd : Fd) (l r : Ep) (sy a f rs hs : Bool)
     (hconn : k.tbl.findConn l r = some fd) (h : Live k o) :
-    Live (k.handleOnConn fd l r sy a f rs) o := by
+    Live (k.handleOnConn fd l r sy a f rs hs) o := by
   unfold handleOnConn
   split
   · -- RST
@@ -307,12 +307,12 @@ theorem tcpDemux_listener (t : Table) (l r : Ep) (sy a rs : Bool) (fd : Fd)
       · simp at h
     · split at h <;> simp at h
 
-theorem live_deliverTcp (k : Kernel) (o : List Fd) (s d : Ep) (sy a f r : Bool) (h : Live k o) :
-    Live (k.deliverTcp s d sy a f r) o := by
+theorem live_deliverTcp (k : Kernel) (o : List Fd) (s d : Ep) (sy a f r hs : Bool) (h : Live k o) :
+    Live (k.deliverTcp s d sy a f r hs) o := by
   unfold deliverTcp
   split
   · rename_i fd hd
-    exact live_handleOnConn k o fd d s sy a f r (tcpDemux_conn _ _ _ _ _ _ _ hd) h
+    exact live_handleOnConn k o fd d s sy a f r hs (tcpDemux_conn _ _ _ _ _ _ _ hd) h
   · rename_i lfd hd
     exact live_acceptSyn k o lfd d s (tcpDemux_listener _ _ _ _ _ _ _ hd) h
   · exact live_emit _ h
@@ -322,7 +322,8 @@ theorem live_deliver (k : Kernel) (o : List Fd) (p : Pkt) (h : Live k o) : Live 
   unfold deliver
   split
   · exact live_deliverUdp _ _ _ _ _ h
-  · exact live_deliverTcp _ _ _ _ _ _ _ _ h
+  · exact live_deliverTcp _ _ _ _ _ _ _ _ _ h
+  · exact live_deliverTcp _ _ _ _ _ _ _ _ _ h
 
 end Kernel
 end TV
